@@ -24,10 +24,11 @@ PROFILES = {
     "man3":     dict(N=3, L=2, cap=2, head=1, manual=1, pay=0, ctx=0, feat="PSHG"),
     "nolog3":   dict(N=3, L=2, cap=2, head=1, manual=1, pay=0, ctx=0, feat="PSH", cfgorder=1, script_seed="man3"),      # twin of man3 without the log interface
     "plain3":   dict(N=3, L=1, cap=0, head=1, manual=0, pay=0, ctx=0, feat=""),
+    "tour2":    dict(N=2, L=1, cap=1, head=1, manual=0, pay=0, ctx=0, feat="H"),      # constants of spec/MC_tour.cfg: replays tours of the model graph
     "all4":     dict(N=4, L=2, cap=4, head=1, manual=1, pay=4, ctx=2, feat="AG", std="c++17"),
 }
 
-QUICK_PROFILES = ["core3", "core3dev", "peer4m", "tiny2v", "inj3m", "sparse5", "one1v", "big9", "man3", "nolog3", "plain3", "all4"]
+QUICK_PROFILES = ["core3", "core3dev", "peer4m", "tiny2v", "inj3m", "sparse5", "one1v", "big9", "man3", "nolog3", "plain3", "all4", "tour2"]
 
 
 def feat_has(p, c):
@@ -203,6 +204,45 @@ def gen_plan_enum(p, rng, limit):
     return "\n".join(out) + "\n"
 
 
+def gen_plan_directed(p, rng, limit):
+    """clause-by-clause plan histories: a fired task's transition is vetoed and another task of the same origin is queued,
+    then cycles without any report; success consumed by firing; origin-0 task ahead of the active origin; outcome repeats"""
+    if not feat_has(p, "P"):
+        return ""
+    N = p["N"]
+    states = list(range(min(N, 3)))
+    out = []
+    n = 0
+    for a in states:
+        for d in states:
+            for e in states:
+                for veto in ("entry", "exit"):
+                    if d == a or n >= limit:
+                        continue
+                    n += 1
+                    ls = _activate(p, logger=n % 2, fill=n % 5)
+                    if a != 0:
+                        ls.append("@0 ito %d" % a)
+                    ls.append("@0 pc %d %d" % (a, d))
+                    vk = _key(1, d) if veto == "entry" else _key(11, a)
+                    ls.append("@0 update | %s:S ; %s:X,PC%d.%d" % (_key(5, a), vk, a, e))
+                    ls += ["@0 update", "@0 react 1", "@0 update | %s:S" % _key(4, a), "@0 update", "@0 update"]
+                    out += ls
+    # a task whose origin is state 0 ahead of a task of the active state; repeated success without new reports
+    for a in states[1:]:
+        ls = _activate(p) + ["@0 ito %d" % a, "@0 pc 0 %d" % a, "@0 pc %d 0" % a, "@0 succeed %d" % a, "@0 update", "@0 update",
+                             "@0 succeed 0", "@0 update", "@0 update"]
+        out += ls
+    # failure processed on an empty plan, then idle cycles (no outcome may repeat without a new report)
+    for a in states:
+        ls = _activate(p)
+        if a != 0:
+            ls.append("@0 ito %d" % a)
+        ls += ["@0 pc %d %d" % (a, a), "@0 px", "@0 update | %s:F" % _key(5, a), "@0 update", "@0 react 2", "@0 update | %s:S" % _key(5, a), "@0 update"]
+        out += ls
+    return "\n".join(out) + "\n"
+
+
 def gen_capacity(p, rng, limit):
     """fill the plan to capacity, overfill, remove at every position, clear, refill - repeatedly"""
     if not feat_has(p, "P"):
@@ -287,12 +327,16 @@ def scenarios_for(pname, p, tier, seed):
     """-> list of (scenario name, script text)"""
     rng = random.Random("%s-%d" % (p.get("script_seed", pname), seed))      # twins share their scripts
     q = tier == "quick"
-    big = p["N"] >= 9
+    if pname == "tour2":
+        import components
+        text, info = components.machine_tour_script("MC_tour")
+        return [("tour", text)]
     sc = []
     sc.append(("random", gen_random(seed, 3 if q else 20, 50 if q else 140)))
     sc.append(("guards", gen_guard_enum(p, rng, 150 if q else 1500)))
     sc.append(("activation", gen_activation_enum(p, rng, 60 if q else 500)))
     sc.append(("plans", gen_plan_enum(p, rng, 120 if q else 1500)))
+    sc.append(("plandirected", gen_plan_directed(p, rng, 24 if q else 200)))
     sc.append(("capacity", gen_capacity(p, rng, 3 if q else 20)))
     sc.append(("serial", gen_serial_pairs(p, rng, 30 if q else 120)))
     sc.append(("lifecycle", gen_lifecycle(p, rng, 12 if q else 60)))
